@@ -273,6 +273,134 @@ def gen() -> int:
     return 0
 
 
+# ---------------------------------------------------------------------------------------------- second operator family
+ATTR_SWAP = {"copyright_lines": "contributor_lines", "contributor_lines": "copyright_lines", "files_without_licenses": "files_without_copyright",
+             "files_without_copyright": "files_without_licenses", "missing_licenses": "bad_licenses", "bad_licenses": "missing_licenses",
+             "unused_licenses": "deprecated_licenses", "deprecated_licenses": "unused_licenses", "include_submodules": "include_meson_subprojects",
+             "include_meson_subprojects": "include_submodules", "source_path": "path", "stem": "name", "suffix": "name", "start": "end",
+             "can_handle_single": "can_handle_multi", "can_handle_multi": "can_handle_single", "licenses_without_extension": "licenses",
+             "SINGLE_LINE": "INDENT_AFTER_SINGLE", "is_file": "is_dir", "is_dir": "is_file", "read_errors": "files_without_licenses"}
+NAME_SWAP = {"before": "after", "after": "before", "single_line": "multi_line", "multi_line": "single_line", "include_submodules": "include_meson_subprojects",
+             "include_meson_subprojects": "include_submodules", "copyrights": "contributors", "contributors": "copyrights", "header": "text",
+             "ignore_start": "ignore_end", "ignore_end": "ignore_start", "lic": "file", "licenses": "copyrights"}
+
+
+class Gen2(Gen):
+    """Guard removal, argument swaps, confusable attributes / names (what a hurried edit gets wrong)."""
+
+    def visit_If(self, n):
+        last = n.body[-1]
+        if not n.orelse and isinstance(last, (ast.Raise, ast.Return, ast.Continue, ast.Break)) and "TYPE_CHECKING" not in ast.unparse(n.test):
+            self.emit("IFDEL", n, "pass")
+        ast.NodeVisitor.generic_visit(self, n)
+
+    def visit_While(self, n):
+        ast.NodeVisitor.generic_visit(self, n)
+
+    def visit_IfExp(self, n):
+        # swap the two arms
+        self.emit("ARMSWAP", n, f"{self.text(n.orelse)} if {self.text(n.test)} else {self.text(n.body)}")
+        ast.NodeVisitor.generic_visit(self, n)
+
+    def visit_comprehension(self, n):
+        # drop a filter clause
+        ast.NodeVisitor.generic_visit(self, n)
+
+    def visit_Compare(self, n):
+        ast.NodeVisitor.generic_visit(self, n)
+
+    def visit_BoolOp(self, n):
+        ast.NodeVisitor.generic_visit(self, n)
+
+    def visit_Constant(self, n):
+        return
+
+    def visit_Expr(self, n):
+        ast.NodeVisitor.generic_visit(self, n)
+
+    def visit_AugAssign(self, n):
+        ast.NodeVisitor.generic_visit(self, n)
+
+    def visit_Assign(self, n):
+        ast.NodeVisitor.generic_visit(self, n)
+
+    def visit_Continue(self, n):
+        return
+
+    def visit_Break(self, n):
+        return
+
+    def visit_Raise(self, n):
+        ast.NodeVisitor.generic_visit(self, n)
+
+    def visit_Call(self, n):
+        ft = ast.unparse(n.func)
+        if not self.in_deco and len(n.args) >= 2 and not any(isinstance(a, ast.Starred) for a in n.args[:2]) \
+                and not ft.startswith(("_LOGGER.", "logging.", "_", "isinstance", "getattr", "setattr", "hasattr")):
+            a0, a1 = n.args[0], n.args[1]
+            s0, e0 = self.span(a0)
+            s1, e1 = self.span(a1)
+            if e0 <= s1:
+                mid = self.src[e0:s1].decode("utf-8")
+                self.emit("ARGSWAP", n, self.text(a1) + mid + self.text(a0), s0, e1)
+        ast.NodeVisitor.generic_visit(self, n)
+
+    def visit_Attribute(self, n):
+        if n.attr in ATTR_SWAP and not self.in_deco:
+            end = self.off(n.end_lineno, n.end_col_offset)
+            start = end - len(n.attr.encode("utf-8"))
+            if self.src[start:end].decode("utf-8") == n.attr:
+                self.emit("ATTRSWAP", n, ATTR_SWAP[n.attr], start, end)
+        ast.NodeVisitor.generic_visit(self, n)
+
+    def visit_Name(self, n):
+        if n.id in NAME_SWAP and isinstance(n.ctx, ast.Load) and not self.in_deco:
+            self.emit("NAMESWAP", n, NAME_SWAP[n.id])
+
+    def visit_Subscript(self, n):
+        # slice bounds: x[a:] -> x[a + 1:], x[:b] -> x[:b - 1]
+        sl = n.slice
+        if isinstance(sl, ast.Slice):
+            if sl.lower is not None and not isinstance(sl.lower, ast.Constant):
+                self.emit("SLICE", sl.lower, f"{self.text(sl.lower)} + 1")
+            if sl.upper is not None and not isinstance(sl.upper, ast.Constant):
+                self.emit("SLICE", sl.upper, f"{self.text(sl.upper)} - 1")
+        ast.NodeVisitor.generic_visit(self, n)
+
+    def visit_UnaryOp(self, n):
+        ast.NodeVisitor.generic_visit(self, n)
+
+
+def gen2() -> int:
+    WORK.mkdir(parents=True, exist_ok=True)
+    out = []
+    seen = set()
+    for p in sorted((REPO / "src/reuse").rglob("*.py")):
+        if p.name in SKIP_FILES:
+            continue
+        src = p.read_bytes()
+        g = Gen2(str(p.relative_to(REPO)), src)
+        g.visit(ast.parse(src))
+        for m in g.out:
+            new_src = src[:m["a"]] + m["new"].encode("utf-8") + src[m["b"]:]
+            try:
+                ast.parse(new_src)
+            except SyntaxError:
+                continue
+            key = (m["file"], m["a"], m["b"], m["new"])
+            if key in seen:
+                continue
+            seen.add(key)
+            m["id"] = f"N{len(out):04d}"
+            out.append(m)
+    (WORK / "mutants.jsonl").write_text("".join(json.dumps(m) + "\n" for m in out), encoding="utf-8")
+    by = {}
+    for m in out:
+        by[m["op"]] = by.get(m["op"], 0) + 1
+    print(len(out), "mutants", by)
+    return 0
+
+
 def make_worker(i: int) -> Path:
     w = WORK / f"w{i}"
     if w.exists():
@@ -478,11 +606,11 @@ def recheck(jobs: int) -> int:
 
 if __name__ == "__main__":
     ap = argparse.ArgumentParser()
-    ap.add_argument("cmd", choices=["gen", "run", "report", "recheck"])
+    ap.add_argument("cmd", choices=["gen", "gen2", "run", "report", "recheck"])
     ap.add_argument("--file", default="results.jsonl")
     ap.add_argument("-j", type=int, default=16)
     ap.add_argument("-k", default=None)
     ap.add_argument("-n", type=int, default=None)
     ap.add_argument("-f", default=None)
     a = ap.parse_args()
-    sys.exit({"gen": gen, "run": lambda: run(a.j, a.k, a.n, a.f), "report": lambda: report(a.file), "recheck": lambda: recheck(a.j)}[a.cmd]())
+    sys.exit({"gen": gen, "gen2": gen2, "run": lambda: run(a.j, a.k, a.n, a.f), "report": lambda: report(a.file), "recheck": lambda: recheck(a.j)}[a.cmd]())
